@@ -662,5 +662,25 @@ def run(model, rep):
     rule_c(model, rep)
     rule_d(model, rep)
     rule_e(model, rep)
+    rule_unique_symbols(model, rep)
     rep.minimum("C06.b-byte-extraction", 3)
     rep.minimum("C06.b-digit-extraction", 4)
+
+
+def rule_unique_symbols(model, rep):
+    """the entropy a generator claims is length * log2(number of symbols): that only holds if the symbols are distinct, so both generators
+    check the sequence they are going to draw from -- whatever its origin -- before storing it"""
+    R = "C06.d-entropy-length"
+    P = "passlib.pwd"
+    for q, attr, var in (("WordGenerator.__init__", "self.chars", "chars"), ("PhraseGenerator.__init__", "self.words", "words")):
+        fn = model.func(P, q)
+        s = site(P, q) + " unique symbols"
+        top = [st for st in fn.body]
+        calls = [i for i, st in enumerate(top) if isinstance(st, ast.Expr) and isinstance(st.value, ast.Call) and ast.unparse(st.value.func) == "_ensure_unique"
+                 and st.value.args and ast.unparse(st.value.args[0]) == var]
+        stores = [i for i, st in enumerate(top) if isinstance(st, ast.Assign) and ast.unparse(st.targets[0]) == attr and ast.unparse(st.value) == var]
+        rebinds = [i for i, st in enumerate(top) for n in ast.walk(st) if isinstance(n, ast.Name) and n.id == var and isinstance(n.ctx, ast.Store)]
+        ok = len(calls) == 1 and len(stores) == 1 and calls[0] < stores[0] and not [i for i in rebinds if calls[0] < i <= stores[0]]
+        rep.check(ok, R, s, f"_ensure_unique({var}) at top-level statement {calls}, `{attr} = {var}` at {stores}",
+                  f"`_ensure_unique({var})` runs unconditionally on the sequence that is stored as {attr}",
+                  witness="genphrase(entropy=24, words=['a', 'a', 'b', ...]) is accepted: the phrase is sized from log2(len(words)) although repeated words carry less")
